@@ -25,6 +25,22 @@ DRAW_METHODS = {'choice', 'normal', 'uniform', 'permutation', 'shuffle',
                 'standard_exponential', 'laplace', 'lognormal'}
 
 
+_MODE_RE = None
+
+
+def is_mode_extent(p):
+    """True when the extent is a product of mode-size symbols of an argument
+    (named <arg>.n<k> / n.<k> by the entry specs), i.e. a sum over this axis
+    runs over tensor indices rather than over a bond."""
+    global _MODE_RE
+    import re
+    if _MODE_RE is None:
+        _MODE_RE = re.compile(r'(^|\.)n\.?\d+$')
+    ats = p.atoms()
+    return bool(ats) and all(isinstance(a, str) and _MODE_RE.search(a)
+                             for a in ats) and p.as_int() is None
+
+
 class CallsMixin:
 
     # ------------------------------------------------------------------
@@ -188,6 +204,7 @@ class CallsMixin:
         r.nonneg = True
         r.note = 'nonzero'
         r.src = 'ones'
+        r.cnt = (ONE, ONE)
         if r.dims is not None and len(r.dims) == 1 and r.dims[0] is not None \
                 and r.dims[0].as_int() is not None and \
                 0 <= r.dims[0].as_int() <= 16:
@@ -363,6 +380,7 @@ class CallsMixin:
         r.orth = self.orth_reshape(a, new)
         r.lay = self.lay_reshape(a, new, order, node)
         r.delta = self.delta_reshape(a, new, order)
+        r.cnt = a.cnt
         return r
 
     def delta_reshape(self, a, new, order):
@@ -698,6 +716,20 @@ class CallsMixin:
                 r.nonlin = True
         else:
             self.site('L-lin', node, 'ok')
+        if ops and all(o.cnt is not None for o in ops) and r.k == 'arr':
+            num, den = ONE, ONE
+            for o in ops:
+                num, den = num * o.cnt[0], den * o.cnt[1]
+            known = True
+            for ch, dd in letters.items():
+                if ch in out:
+                    continue
+                if dd is None:
+                    known = False
+                elif is_mode_extent(dd):
+                    num = num * dd
+            if known:
+                r.cnt = (num, den)
         lgs = [o.lg for o in ops]
         if ops and all(l is not None for l in lgs):
             tot = lgs[0]
@@ -965,6 +997,14 @@ class CallsMixin:
         r.nonneg = aa.nonneg
         if r.k == 'arr':
             r.nonlin = aa.nonlin
+        fname_ = getattr(getattr(node, 'func', None), 'attr', '') or \
+            getattr(getattr(node, 'func', None), 'id', '')
+        ax_ = self.axis_val(self.kwarg(pos, kw, 1, 'axis'))
+        if fname_ == 'sum' and aa.cnt is not None and aa.dims is not None \
+                and isinstance(ax_, int) and -len(aa.dims) <= ax_ < len(aa.dims) \
+                and aa.dims[ax_] is not None:
+            r.cnt = (aa.cnt[0] * aa.dims[ax_], aa.cnt[1]) \
+                if is_mode_extent(aa.dims[ax_]) else aa.cnt
         return r
 
     def _mark_sum(self, r, a, axis_v):
